@@ -1,11 +1,18 @@
 package forkexec
 
 import (
+	"errors"
 	"syscall"
 )
 
+// ErrNoArgs is returned by Start when Args is empty (argv[0] is required)
+var ErrNoArgs = errors.New("forkexec: empty argument list")
+
 // prepareExec prepares execve parameters
 func prepareExec(Args, Env []string) (*byte, []*byte, []*byte, error) {
+	if len(Args) == 0 {
+		return nil, nil, nil, ErrNoArgs
+	}
 	// make exec args0
 	argv0, err := syscall.BytePtrFromString(Args[0])
 	if err != nil {
